@@ -216,8 +216,125 @@ func c19GenTree(r *lib.Rng, class string, thorough bool) *lib.Build {
 		for i := 0; i < n; i++ {
 			put(lib.Entry{Path: fmt.Sprintf("w/f%05d", i), Kind: "file", Data: r.Bytes(r.Range(0, 64))})
 		}
+	case "contents":
+		c19GenContents(r, put, thorough)
 	}
 	return b
+}
+
+// ---------------------------------------------------------------- file contents
+
+// Granules at which code that copies, pads or packs file contents works: the tar block (512),
+// a page (4 KiB), io.Copy's buffer (32 KiB), the wharf block (64 KiB); one more per tree from
+// c19MoreGranules.  "Every file byte-for-byte" is about contents, not only about names: a
+// copy loop, a hole/sparse optimisation, a padding rule or an end-of-data test goes wrong for
+// contents laid out on such a granule (a run of one byte value that starts, ends or fills the
+// file exactly at a multiple of it), never for a few hundred random bytes.
+var c19Granules = []int{512, 4096, 32 << 10, 64 << 10}
+var c19MoreGranules = []int{1024, 8192, 16 << 10, 128 << 10, 256 << 10}
+
+type c19Seg struct {
+	fill byte // 'z' zeroes, 'f' 0xff, 'b' one random byte value, 'r' random, 't' text-like, 'n' zeroes + one non-zero byte
+	n    int
+}
+
+func c19Layout(r *lib.Rng, segs []c19Seg) (string, []byte) {
+	var name []string
+	var data []byte
+	for _, s := range segs {
+		if s.n <= 0 {
+			continue
+		}
+		name = append(name, fmt.Sprintf("%c%d", s.fill, s.n))
+		var d []byte
+		switch s.fill {
+		case 'z':
+			d = make([]byte, s.n)
+		case 'f':
+			d = bytes.Repeat([]byte{0xff}, s.n)
+		case 'b':
+			d = bytes.Repeat([]byte{byte(r.Range(1, 254))}, s.n)
+		case 't':
+			d = c19BigData(r, s.n)
+		case 'n': // all zero but one byte: first, last, or anywhere
+			d = make([]byte, s.n)
+			d[[]int{0, s.n - 1, r.Intn(s.n)}[r.Intn(3)]] = byte(r.Range(1, 255))
+		default:
+			d = r.Bytes(s.n)
+			// the run next to it must not be extended by chance
+			d[0] |= 1
+			d[len(d)-1] |= 1
+		}
+		data = append(data, d...)
+	}
+	return strings.Join(name, "-"), data
+}
+
+// c19GenContents: per granule g, files named after their layout (fill letter + length per
+// segment, so a replay reads e.g. g32768/01_r32768-z65536):
+//
+//	always   a run filling the file (k*g), a run ending the file at a multiple of g, a run starting
+//	         it, a run in the middle - the run being zeroes, data before/after random or text
+//	random   the same with 0xff / one byte value / almost-zero runs, sizes one byte or a random
+//	         amount off the multiple, data that is not a multiple of g before the run, several runs
+//
+// plus an empty file, an empty directory and a link so that all three counters move.
+func c19GenContents(r *lib.Rng, put func(lib.Entry), thorough bool) {
+	gs := append([]int(nil), c19Granules...)
+	gs = append(gs, c19MoreGranules[r.Intn(len(c19MoreGranules))])
+	if thorough && r.Chance(1, 3) {
+		gs = append(gs, 1<<20)
+	}
+	dataFill := func() byte { return []byte{'r', 'r', 't', 'n', 'b'}[r.Intn(5)] }
+	runFill := func() byte { return []byte{'z', 'z', 'z', 'f', 'b', 'n'}[r.Intn(6)] }
+	for _, g := range gs {
+		maxK := 3
+		if g >= 1<<20 {
+			maxK = 1
+		}
+		k := func() int { return g * r.Range(1, maxK) }
+		off := func() int { // a length that is not a multiple of g
+			if r.Chance(1, 2) {
+				return []int{1, g - 1, g + 1}[r.Intn(3)]
+			}
+			return r.Range(1, g-1)
+		}
+		layouts := [][]c19Seg{
+			{{'z', k()}},
+			{{dataFill(), k()}, {'z', k()}},
+			{{'z', k()}, {dataFill(), k()}},
+			{{dataFill(), k()}, {'z', k()}, {dataFill(), off()}},
+		}
+		for i, extra := 0, r.Range(3, 5); i < extra; i++ {
+			switch r.Intn(8) {
+			case 0: // a run filling the file, other byte values, or one byte off
+				layouts = append(layouts, []c19Seg{{runFill(), k() + []int{0, 0, -1, 1}[r.Intn(4)]}})
+			case 1: // run at the end, the file size a multiple of g or not
+				layouts = append(layouts, []c19Seg{{dataFill(), k()}, {runFill(), k() + []int{0, 0, -1, 1, off()}[r.Intn(5)]}})
+			case 2: // run at the end at an offset that is not a multiple
+				layouts = append(layouts, []c19Seg{{dataFill(), off()}, {runFill(), k()}})
+			case 3: // ... ending at a multiple all the same
+				o := r.Range(1, g-1)
+				layouts = append(layouts, []c19Seg{{dataFill(), o}, {runFill(), k() - o}})
+			case 4: // run at the start
+				layouts = append(layouts, []c19Seg{{runFill(), k() + []int{0, -1, 1}[r.Intn(3)]}, {dataFill(), []int{k(), off(), 1}[r.Intn(3)]}})
+			case 5: // several runs
+				layouts = append(layouts, []c19Seg{{runFill(), k()}, {dataFill(), k()}, {runFill(), k()}, {dataFill(), g}, {runFill(), g}})
+			case 6: // two different runs back to back, the second ends the file
+				layouts = append(layouts, []c19Seg{{'f', k()}, {'z', k()}})
+			default: // no run at all, size on the multiple
+				layouts = append(layouts, []c19Seg{{dataFill(), k() + []int{0, -1, 1}[r.Intn(3)]}})
+			}
+		}
+		for i, l := range layouts {
+			name, data := c19Layout(r, l)
+			put(lib.Entry{Path: fmt.Sprintf("g%d/%02d_%s", g, i, name), Kind: "file", Data: data})
+		}
+	}
+	put(lib.Entry{Path: "g0/empty", Kind: "file"})
+	put(lib.Entry{Path: "g0/one-zero", Kind: "file", Data: []byte{0}})
+	put(lib.Entry{Path: "g0/dir", Kind: "dir"})
+	put(lib.Entry{Path: "g0/link", Kind: "link", Dest: "empty"})
 }
 
 // ---------------------------------------------------------------- archives
@@ -599,8 +716,13 @@ func runC19(c0 *Ctx) error {
 		return err
 	}
 	phase("resume")
-	err := c19RaceCases(c, false)
+	if err := c19RaceCases(c, false); err != nil {
+		return err
+	}
 	phase("race")
+	// last, so that the cases above are the same as before this class existed
+	err := c19ContentCases(c)
+	phase("contents")
 	return err
 }
 
@@ -622,6 +744,26 @@ func c19ExtractCases(c *Ctx) error {
 			workers = 1
 		}
 		if err := c19OneExtract(c, cr, b, class, flavor, workers, cr.Chance(1, 2)); err != nil {
+			return err
+		}
+	}
+	return nil
+}
+
+// trees of class "contents" (file contents laid out on copy/pad granules) through every
+// flavor; the worker count matters little here, it rotates all the same
+func c19ContentCases(c *Ctx) error {
+	r := c.Rng.Fork()
+	n := c.N(6, 60)
+	for i := 0; i < n; i++ {
+		cr := r.Fork()
+		b := c19GenTree(cr, "contents", c.Thorough() && i%3 == 0)
+		flavor := []string{"zip", "tar", "czip"}[i%3]
+		workers := c19Workers[(i/3+i)%len(c19Workers)]
+		if flavor == "tar" {
+			workers = 1
+		}
+		if err := c19OneExtract(c, cr, b, "contents", flavor, workers, cr.Chance(1, 2)); err != nil {
 			return err
 		}
 	}
@@ -1213,6 +1355,25 @@ func c19ResumeCases(c *Ctx) error {
 			}
 		}
 		if err := c19ResumeConfig(c, cr, b, class, flavor, workers, chains, mode, ""); err != nil {
+			return err
+		}
+	}
+	// contents laid out on granules, interrupted (in freeze mode: also between two reads of a
+	// file's content, so that partly written files are on disk at the restart)
+	for i, n := 0, c.N(1, 6); i < n; i++ {
+		cr := r.Fork()
+		b := c19GenTree(cr, "contents", false)
+		nonDir := len(b.Entries) - c19BuildCounts(b).Dirs
+		var chains [][]int
+		for _, k := range c19KillPoints(cr, nonDir, c.N(5, 10)) {
+			chains = append(chains, []int{k})
+		}
+		chains = append(chains, []int{cr.Range(1, nonDir), cr.Range(1, nonDir)})
+		mode := "freeze"
+		if i%4 == 3 {
+			mode = "process"
+		}
+		if err := c19ResumeConfig(c, cr, b, "contents", []string{"zip", "czip"}[i%2], []int{4, 1, 16, 2, -1}[i%5], chains, mode, ""); err != nil {
 			return err
 		}
 	}
